@@ -79,6 +79,8 @@ class FunctionRun:
                 info['fixed'][cell.name] = pending[path]
                 e.st.mem[cell.id] = bv(pending.pop(path), cell.ct.bits)
                 info['ints'].pop(cell.name, None)
+        for ln, ldef in self.config.get('let', {}).items():
+            f.logical[ln] = tr.expr(ldef)
         # ghost parameters of the contract: fresh symbols constrained only by `requires`
         for ln, ldef in c.logical.items():
             m = re.match(r'^fresh:([ui])(\d+)$', ldef.strip())
@@ -113,6 +115,8 @@ class FunctionRun:
         # nested shape entries ('a.b': spec), in contract order
         for path, spec in c.regions.items():
             if '.' not in path and '[' not in path:
+                continue
+            if path.split('.')[0] in self.config.get('null', []):
                 continue
             self.make_nested(path, spec, tr, info)
             try_sets()
@@ -191,8 +195,13 @@ class FunctionRun:
             tgt = tr.expr(kind[1])
             if not isinstance(tgt, Ptr) or tgt.region is None:
                 raise Unsupported('shape into: target')
-            off = z3.BitVec(path + '.off', 64)
-            info['ints'][path + '.off'] = (off, False)
+            lit = self.config.get('offsets', {}).get(path)
+            if lit is not None:
+                off = tgt.off + bv(lit, 64)
+                info['fixed'][path + '.off'] = lit
+            else:
+                off = z3.BitVec(path + '.off', 64)
+                info['ints'][path + '.off'] = (off, False)
             e.st.mem[cell.id] = Ptr(tgt.region, off)
         elif kind[0] == 'null':
             e.st.mem[cell.id] = NULL
